@@ -6,6 +6,11 @@
 #include <amgcl/value_type/complex.hpp>
 #include <complex>
 using hx::scalar; using hx::var; using hx::Pattern; using hx::SCrs;
+#ifdef HX_SYM
+static bool written(const scalar &v) { return v.valid(); }      // a never-written symbolic scalar carries an invalid handle
+#else
+static bool written(const scalar &) { return true; }
+#endif
 namespace be = amgcl::backend; typedef hx::ACrs<scalar> M; typedef std::vector<std::vector<scalar>> Dense;
 static Dense dense_of(const M &A) { Dense d(A.nrows,std::vector<scalar>(A.ncols,scalar(0))); for (size_t i=0;i<A.nrows;++i) for (ptrdiff_t k=A.ptr[i];k<A.ptr[i+1];++k) d[i][A.col[k]]=d[i][A.col[k]]+A.val[k]; return d; }
 static std::vector<scalar> flat(const Dense &d) { std::vector<scalar> v; for (auto &r : d) for (auto &x : r) v.push_back(x); return v; }
@@ -43,7 +48,9 @@ static void misc_case(const Pattern &p0) { hx::run_case("misc/"+p0.name,[&]() { 
     { M B(*Am); be::scale(B,s); std::vector<scalar> ref; for (auto &r : a) for (auto &x : r) ref.push_back(s*x); hx::prove_eq_vec("scale: B = s A", flat(dense_of(B)), ref); }
     { M B(*Am); be::sort_rows(B); hx::require("sort_rows: rows sorted, structure well-formed", well_formed(B,true,true)); hx::prove_eq_vec("sort_rows: same matrix", flat(dense_of(B)), flat(a)); bool ex=true; for (size_t i=0;i<B.nrows;++i) for (ptrdiff_t k=B.ptr[i];k<B.ptr[i+1];++k) ex=ex&&hx::same_handle(B.val[k],A.at(i,B.col[k])); hx::require("sort_rows moves (col,val) pairs together", ex); }
     { M B(*Am); M C2(std::tie(p.n,A.ptr,A.col,A.val)); M D; D=B; M E(std::move(B)); bool ok=true; for (const M *X : {&C2,&D,&E}) { ok=ok&&X->nrows==(size_t)p.n&&X->ptr[p.n]==(ptrdiff_t)p.nnz(); if ((int)X->ncols==p.m || X==&C2) for (size_t k=0;k<p.nnz();++k) ok=ok&&X->col[k]==p.col[k]&&hx::same_handle(X->val[k],A.val[k]); } hx::require("CRS copy / tuple / assignment / move constructors reproduce structure and values exactly", ok); }
-    if (p.n==p.m) { bool fulldiag=true; for (int i=0;i<p.n;++i) fulldiag=fulldiag&&p.has(i,i); if (fulldiag) { auto d=be::diagonal(*Am,false); std::vector<scalar> ref; for (int i=0;i<p.n;++i) ref.push_back(a[i][i]); hx::prove_eq_vec("diagonal", hx::to_vec(*d), ref);
+    if (p.n==p.m) { // a diagonal entry that is not stored is zero (its "inverse" the identity, like a stored zero): every entry of the result is written
+        { auto d0=be::diagonal(*Am,false); std::vector<scalar> got, ref; bool wr=true; for (int i=0;i<p.n;++i) { scalar v=(*d0)[i]; wr=wr&&written(v); got.push_back(written(v)?v:scalar(0)); ref.push_back(p.has(i,i)?a[i][i]:scalar(0)); } hx::require("diagonal(): every entry of the result is written, also for rows without a stored diagonal entry", wr); if (wr) hx::prove_eq_vec("diagonal (absent entries are zero)", got, ref); }
+        bool fulldiag=true; for (int i=0;i<p.n;++i) fulldiag=fulldiag&&p.has(i,i); if (fulldiag) { auto d=be::diagonal(*Am,false); std::vector<scalar> ref; for (int i=0;i<p.n;++i) ref.push_back(a[i][i]); hx::prove_eq_vec("diagonal", hx::to_vec(*d), ref);
         for (int i=0;i<p.n;++i) hx::assume(hx::ne(a[i][i],scalar(0))); auto di=be::diagonal(*Am,true); std::vector<scalar> r2; for (int i=0;i<p.n;++i) r2.push_back(scalar(1)/a[i][i]); hx::prove_eq_vec("inverted diagonal", hx::to_vec(*di), r2);
         // an explicitly stored ZERO diagonal entry is replaced by the identity when inverting (the library's stated convention: is_zero(d) ? identity : inverse(d)); extraction returns it as it is
         for (int z=0;z<p.n;++z) { SCrs Z=A; for (ptrdiff_t k=Z.ptr[z];k<Z.ptr[z+1];++k) if (Z.col[k]==z) Z.val[k]=scalar(0); auto Zm=hx::to_amgcl(Z); auto dz=be::diagonal(*Zm,false), dzi=be::diagonal(*Zm,true); std::vector<scalar> e0, e1; for (int i=0;i<p.n;++i) { e0.push_back(i==z?scalar(0):a[i][i]); e1.push_back(i==z?scalar(1):scalar(1)/a[i][i]); }
